@@ -41,6 +41,15 @@ CLAIMED = {
         text="Lean theorems for all admissible shapes: v1 pack/unpack round trip with and without column reordering (order lists regenerated from the source and checked inverse by decide), v2 pack equals the reference packer, v2 round trip, "
              "zero-point recovery and back conversion of AWQBitsTensor to the standard representation, bound between the AWQ and standard dequantization. Correspondence on CPU (modules run with asserts off): the complete position permutation of every shape N<=32, K<=512 recovered from index-encoding inputs, random matrices, bit identity with external/awq/pack_intweight.py, AWQBitsTensor construction/dequantize/qbits_tensor bit-exact.",
         design="6/C15", technique="Lean 4 proof of index-map bijections + regenerated tables + differential correspondence (python -O on CPU)"),
+    "C05": dict(
+        text="Lean theorems: every data-movement op commutes with dequantization for per-tensor tensors (gather commutes with elementwise maps), lifted to movement programs of any length by induction; per-axis tensors dequantize first by definition; cat/stack/split commute under equal scales; neg/relu commute under explicit guards; "
+             "scalar mul/div differ from the reference by a proved rounding allowance; softmax/where re-quantization is the symmetric quantizer (C01 nearest-point bound applies); integer mm is the exact sum and cannot overflow int32; no spurious raise for movement ops; counter-example theorems for repaired and recorded defects. "
+             "Each dispatched function is transcribed in the model and compared with the implementation after every step of typed random programs (codes, scale bits, metadata, exception class); the relation with the float reference on the dequantized operands is evaluated on the implementation.",
+        design="6/C05", technique="Lean 4 proof over a transcription of the dispatch table + per-step differential correspondence on random programs"),
+    "C06": dict(
+        text="Lean theorems: the well-formedness invariant (payload shape = reported size, scale shaped along the declared axis, storage dtype of the qtype, outer dtype = scale dtype) holds for the quantizers' outputs and is preserved by every intercepted op returning a quantized value, hence for all reachable values by induction over programs; "
+             "moves keep codes, a dtype move changes only the scale; counter-example for the repaired split defect. The same decidable predicate is evaluated by the Lean driver on the flatten view of every quantized tensor met in the C05 programs, after moves, state_dict round trips and freeze.",
+        design="6/C06", technique="Lean 4 invariant proof by induction over op programs + executable predicate evaluated on implementation values"),
 }
 
 NOT_YET = "check not yet built in this round (build in progress; see DESIGN.md build order)"
